@@ -40,15 +40,17 @@ type SOp struct {
 }
 
 type SCase struct {
-	Strategy  string   `json:"strategy"`  // of s: one | all
-	Decisions []string `json:"decisions"` // of s, one per consultation (last repeats)
-	SysDec    []string `json:"sysDec"`    // system strategy (one-for-one), for escalations and for s itself
-	Provider  bool     `json:"provider"`  // x has a provider
-	Grandkid  bool     `json:"grandkid"`  // x has a child z
-	First     string   `json:"first"`     // which child fails first: s/x | s/y
-	FailMode  string   `json:"failMode"`  // how it fails: panic | failed
-	Queued    int      `json:"queued"`    // messages queued behind the failing one
-	Park      string   `json:"park"`      // which actor is parked: s | s/x | s/y
+	Strategy  string   `json:"strategy"`            // of s: one | all
+	Decisions []string `json:"decisions"`           // of s, one per consultation (last repeats)
+	SysDec    []string `json:"sysDec"`              // system strategy (one-for-one), for escalations and for s itself
+	Provider  bool     `json:"provider"`            // x has a provider
+	Grandkid  bool     `json:"grandkid"`            // x has a child z
+	XStrategy string   `json:"xStrategy,omitempty"` // x's own strategy for z (one | all; "" = it inherits the system's)
+	XDec      []string `json:"xDec,omitempty"`
+	First     string   `json:"first"`    // which child fails first: s/x | s/y
+	FailMode  string   `json:"failMode"` // how it fails: panic | failed
+	Queued    int      `json:"queued"`   // messages queued behind the failing one
+	Park      string   `json:"park"`     // which actor is parked: s | s/x | s/y
 	Point     int      `json:"point"`
 	Intr      []SOp    `json:"intr"`
 	Post      []SOp    `json:"post"`
@@ -71,8 +73,8 @@ func (c SCase) Describe() string {
 		}
 		return strings.Join(s, " ")
 	}
-	return fmt.Sprintf("s{%s:%s} system{one:%s} children x(provider=%v, grandchild=%v) y | %s fails (%s) with %d messages queued behind | %s parked at its window point %d | meanwhile: %s | released | then: %s",
-		c.Strategy, strings.Join(c.Decisions, ","), strings.Join(c.SysDec, ","), c.Provider, c.Grandkid, c.First, c.FailMode, c.Queued, c.Park, c.Point, f(c.Intr), f(c.Post))
+	return fmt.Sprintf("s{%s:%s} system{one:%s} children x(provider=%v, grandchild=%v, own strategy %q:%v) y | %s fails (%s) with %d messages queued behind | %s parked at its window point %d | meanwhile: %s | released | then: %s",
+		c.Strategy, strings.Join(c.Decisions, ","), strings.Join(c.SysDec, ","), c.Provider, c.Grandkid, c.XStrategy, c.XDec, c.First, c.FailMode, c.Queued, c.Park, c.Point, f(c.Intr), f(c.Post))
 }
 
 var decisions = []string{"restart", "grestart", "stop", "gstop", "resume", "escalate"}
@@ -116,10 +118,21 @@ func genCase(t *rapid.T) SCase {
 	}
 	c.Provider = rapid.Bool().Draw(t, "provider")
 	c.Grandkid = rapid.IntRange(0, 2).Draw(t, "grandkid") == 0
-	c.First = rapid.SampledFrom([]string{"s/x", "s/x", "s/y"}).Draw(t, "first")
+	firsts, parks := []string{"s/x", "s/x", "s/y"}, []string{"s", "s", "s/x", "s/x", "s/y"}
+	if c.Grandkid {
+		// a chain of two supervisors: z's failure is x's business first (x may escalate it to s)
+		firsts, parks = append(firsts, "s/x/z", "s/x/z"), append(parks, "s/x/z")
+		if rapid.Bool().Draw(t, "xOwnStrategy") {
+			c.XStrategy = rapid.SampledFrom([]string{"one", "all"}).Draw(t, "xStrategy")
+			for i, n := 0, rapid.IntRange(1, 2).Draw(t, "nXDec"); i < n; i++ {
+				c.XDec = append(c.XDec, rapid.SampledFrom([]string{"escalate", "restart", "resume", "escalate", "grestart", "stop", "gstop"}).Draw(t, "xDecision"))
+			}
+		}
+	}
+	c.First = rapid.SampledFrom(firsts).Draw(t, "first")
 	c.FailMode = rapid.SampledFrom([]string{"panic", "failed"}).Draw(t, "failMode")
 	c.Queued = rapid.IntRange(0, 3).Draw(t, "queued")
-	c.Park = rapid.SampledFrom([]string{"s", "s", "s/x", "s/x", "s/y"}).Draw(t, "park")
+	c.Park = rapid.SampledFrom(parks).Draw(t, "park")
 	c.Point = rapid.IntRange(0, 70).Draw(t, "point")
 	id := 2000
 	c.Intr = genOps(t, rapid.IntRange(0, 4).Draw(t, "nIntr"), &id, c.Grandkid) // none: the rest of the system simply runs ahead of the parked actor
@@ -150,7 +163,7 @@ func runAt(t *testing.T, c SCase, point int) (v *verdict, nontrivial bool, label
 		defer w.Close()
 		_, _ = w.Spawn(world.Spec{Name: "s", Strategy: c.Strategy, Decisions: c.Decisions})
 		vt.Settle()
-		w.Tell("s", "", 0, []world.Step{{Op: "spawn", Spec: &world.Spec{Name: "x", Provider: c.Provider}}})
+		w.Tell("s", "", 0, []world.Step{{Op: "spawn", Spec: &world.Spec{Name: "x", Provider: c.Provider, Strategy: c.XStrategy, Decisions: c.XDec}}})
 		w.Tell("s", "", 0, []world.Step{{Op: "spawn", Spec: &world.Spec{Name: "y"}}})
 		vt.Settle()
 		if c.Grandkid {
